@@ -174,3 +174,14 @@ class Z3World(Evaluator):
         for cond, val in reversed(built[:-1]):
             res = Val(val.sort, z3.If(cond, val.v, res.v))
         return res
+
+
+_WORLD = None
+
+
+def get_world():
+    """process-wide singleton (RecFunctions can be declared only once per z3 context)"""
+    global _WORLD
+    if _WORLD is None:
+        _WORLD = Z3World()
+    return _WORLD
